@@ -331,6 +331,13 @@ func c19Check1(k c19Case) (string, string) {
 				if err := entry(mm, data); err != nil || bad(mm) {
 					return "dec-wire-reused-message", fmt.Sprintf("%s of the same bytes (type word %#04x, attribute set #%d) into the same Message, whose Type field the caller had set to %v in between: err=%v type=%v, want (%#x,%d)", name, k.V, bi, junk, err, mm.Type, wm, wc)
 				}
+				// a datagram cut short (refused), then the message: nothing of the refused one counts
+				if len(data) > 20 {
+					_ = entry(mm, sibling[:len(sibling)-4])
+					if err := entry(mm, data); err != nil || bad(mm) {
+						return "dec-wire-reused-message", fmt.Sprintf("%s of type word %#04x (attribute set #%d) into a Message that had just refused its sibling cut short by 4 bytes: err=%v type=%v, want (%#x,%d)", name, k.V, bi, err, mm.Type, wm, wc)
+					}
+				}
 				// a sibling (other type word, everything else equal), then the message again
 				if err := entry(mm, sibling); err != nil {
 					return "dec-wire", fmt.Sprintf("%s of the sibling of %#04x failed: %v", name, k.V, err)
